@@ -561,6 +561,18 @@ class Sym(Interp):
         o2 = self.exec_block(s.orelse, e2, ctx) if e2 is not None else None
         return self.phi_env(T(tv), o1, o2)
 
+    def join_env(self, e1, e2):
+        """environments that meet again after `continue` / `break` / early exit differ by the condition under which one of them
+        left: when their path conditions split on one test with opposite polarity, the join is the phi over that test"""
+        if e1 is not None and e2 is not None:
+            p1, p2 = e1.get("$path", ()) or (), e2.get("$path", ()) or ()
+            k = 0
+            while k < len(p1) and k < len(p2) and p1[k] == p2[k]:
+                k += 1
+            if k < len(p1) and k < len(p2) and p1[k][0] == p2[k][0] and p1[k][1] is (not p2[k][1]) and isinstance(p1[k][1], bool):
+                return self.phi_env(p1[k][0], e1, e2) if p1[k][1] else self.phi_env(p1[k][0], e2, e1)
+        return super().join_env(e1, e2)
+
     def phi_env(self, cond, o1, o2):
         if o1 is None:
             return o2
